@@ -3,8 +3,8 @@
    lists regenerated from the source on every run (gen/GenGoroutinesWriter.v).
    Scope: everything AFTER the third-party wire decoders (jx, protobuf, pprof, snappy, gzip, multipart):
    those are exercised by the harness, their accept/reject bit is an input of the model. *)
-From Coq Require Import List String ZArith NArith Bool.
-From Qryn Require Import model.IngestRobust proofs.IngestRobustProofs gen.GenGoroutinesWriter.
+From Coq Require Import List String ZArith NArith Bool Permutation.
+From Qryn Require Import model.IngestRobust proofs.IngestRobustProofs model.IngestPipe proofs.IngestPipeProofs gen.GenGoroutinesWriter.
 Import ListNotations.
 
 (* ---- goroutines -------------------------------------------------------------------------- *)
@@ -90,9 +90,10 @@ Theorem ns_source_guarded : gen_ns_guard = true.
 Proof. vm_compute. reflexivity. Qed.
 Print Assumptions ns_source_guarded.
 
-(* unmarshal.fastFillArray ends for every positive length (log2 iterations) *)
-Theorem fast_fill_array_ends : forall len, (0 < len)%N -> fast_fill_array (ffa_fuel len) len = LDone.
-Proof. exact fast_fill_array_terminates. Qed.
+(* unmarshal.fastFillArray ends for EVERY length (log2 iterations; length 0 returns the empty slice since 6469d55,
+   and the source still has that guard) *)
+Theorem fast_fill_array_ends : (forall len, fast_fill_array (ffa_fuel len) len = LDone) /\ gen_ffa_guard = true.
+Proof. split; [exact fast_fill_array_terminates|vm_compute; reflexivity]. Qed.
 Print Assumptions fast_fill_array_ends.
 
 (* impl.fastFill never returns for len > 1 (c >>= 1) -- and nothing calls it *)
@@ -213,3 +214,169 @@ Example zipkin_without_trace_id_is_rejected :
              q_body := BZipkin false [{| z_tid := ZAbsent; z_sid := ZStr "690Ed2bfC9DECBfd"; z_pid := ZAbsent; z_ts := TNum; z_dur := TNum |}] |}
   = Exact C4xx.
 Proof. vm_compute. reflexivity. Qed.
+
+
+(* ========================================================================================== *)
+(* ---- the pipeline AROUND the decoders: goroutine programs, channel, consumer (model/IngestPipe.v) ---- *)
+
+(* The four `go func(){..}()` bodies of utils/unmarshal/builder.go, the body of tamePanic and the receive loop of
+   controller doParse, regenerated from the source as PROGRAMS, are the modelled ones.  (A `defer close(p.res)`,
+   a removed close in the error branch, a removed tamePanic, a return without the drain goroutine falsify it.) *)
+Theorem parser_goroutines_match_source :
+  programs_eqb gen_parser_programs parser_programs_model = true /\
+  gsimples_eqb gen_tame_panic tame_model = true /\ gen_tame_guarded = true /\
+  consumer_eqb gen_consumer consumer_model = true.
+Proof. vm_compute. split; [|split; [|split]]; reflexivity. Qed.
+Print Assumptions parser_goroutines_match_source.
+
+(* For EVERY behaviour of the decoder oracle d (any responses flushed by the batching handlers while it runs; then
+   it returns nil, returns any error, or panics) each parser goroutine: does not die of an un-recovered panic (false),
+   sends the flushed responses, then exactly ONE last response (the batch / the error / "panic: ..."), closes the
+   channel exactly once and does nothing after that. *)
+Theorem parser_goroutines_follow_protocol : forall d,
+  run_prog tame_model spans_prog None d = (protocol_trace d [d_batch d], false) /\
+  run_prog tame_model logs_prog None d = (protocol_trace d [d_batch d], false) /\
+  run_prog tame_model prof_prog None d = (protocol_trace d (if d_rows d then [d_batch d] else []), false) /\
+  (forall e, run_prog tame_model pre_err_prog (Some e) d = ([OSend (resp_err e); OClose], false)).
+Proof.
+  intros d. split; [apply run_spans_prog|split; [apply run_logs_prog|split; [apply run_prof_prog|]]].
+  intros e. apply run_pre_err_prog.
+Qed.
+Print Assumptions parser_goroutines_follow_protocol.
+
+(* The programs send exactly what the fused definitions of model/IngestRobust.v (parse_spans / parse_logs /
+   parse_prof, over which push_goroutine_panic_free is stated) say: the older theorems are about these programs. *)
+Theorem programs_send_what_is_pushed :
+  (forall st evs, sends_of (fst (run_prog tame_model spans_prog None (spans_dres st evs))) = parse_spans st evs) /\
+  (forall st evs, sends_of (fst (run_prog tame_model logs_prog None (logs_dres st evs))) = parse_logs st evs) /\
+  (forall rows evs, sends_of (fst (run_prog tame_model prof_prog None (prof_dres rows evs))) = parse_prof rows evs).
+Proof. split; [exact spans_prog_sends|split; [exact logs_prog_sends|exact prof_prog_sends]]. Qed.
+Print Assumptions programs_send_what_is_pushed.
+
+(* no_crash + no_wedge for the whole system parser goroutine || unbuffered channel || handler (|| drain goroutine):
+   for every event stream of the decoders, from every usable state of the services and every well-formed batch, the
+   run ends in SAllDone r with r <> PCrash: the handler has an answer, the parser goroutine and the drain goroutine
+   have returned (nobody blocked in a send or a receive), no goroutine panicked, the services keep their columns. *)
+Theorem no_request_wedges_or_crashes_the_pipeline :
+  (forall evs st w, world_ok w = true -> span_st_ok st ->
+     served (serve tame_model spans_prog consumer_model ctx_traces w (spans_dres st evs))) /\
+  (forall evs st w, world_ok w = true -> ts_ok (ls_ts st) ->
+     served (serve tame_model logs_prog consumer_model ctx_logs w (logs_dres st evs))) /\
+  (forall evs rows w, world_ok w = true ->
+     served (serve tame_model prof_prog consumer_model ctx_logs w (prof_dres rows evs))).
+Proof. split; [exact spans_served|split; [exact logs_served|exact prof_served]]. Qed.
+Print Assumptions no_request_wedges_or_crashes_the_pipeline.
+
+Example pipeline_hyps_met : world_ok world0 = true /\ span_st_ok span_st0 /\ ts_ok (ls_ts logs_st0).
+Proof. split; [reflexivity|split; [exact span_st0_ok|reflexivity]]. Qed.
+(* a non-trivial run: a flush (> 1 MiB), then a span with a 3-byte trace id: answered 4xx, everybody finished *)
+Example pipeline_run_with_flush_and_bad_span :
+  let good := {| si_tid := 16; si_sid := 8; si_keys := 3%nat; si_bytes := 600000; si_abytes := 500000 |} in
+  let bad := {| si_tid := 3; si_sid := 8; si_keys := 1%nat; si_bytes := 100; si_abytes := 50 |} in
+  fst (serve tame_model spans_prog consumer_model ctx_traces world0 (spans_dres span_st0 [EvSpan good; EvSpan good; EvSpan bad; EvSpan good]))
+  = SAllDone (PStatus e_bad_ids).
+Proof. vm_compute. reflexivity. Qed.
+
+(* What the obligations above protect against (each variant of the programs is refuted by a concrete decoder
+   behaviour): deferred close next to tamePanic = double close on a decoder panic (seeded change C05-c); no
+   tamePanic = process exit; error branch without close = drain goroutine blocked forever; a consumer that returns
+   without draining = a producer with something left to send is blocked forever. *)
+Theorem protocol_variants_refuted :
+  snd (run_prog tame_model deferred_close_prog None (some_dres DEndPanic)) = true /\
+  snd (run_prog tame_model {| gp_defers := []; gp_body := gp_body spans_prog |} None (some_dres DEndPanic)) = true /\
+  fst (serve tame_model {| gp_defers := [DTame]; gp_body := [GS GDecode; GIfErr [GSendErr; GReturn]; GS GSendBatch; GS GClose] |}
+         consumer_model ctx_traces world0 (some_dres (DEndErr e_json))) = SDrainBlocked (PStatus e_json) /\
+  fst (sys_run false ctx_traces world0 (CRecv false) [OSend (resp_err e_json); OSend (resp_spans [] []); OClose])
+  = SProducerBlocked (PStatus e_json).
+Proof.
+  split; [exact deferred_close_crashes_on_panic|split; [exact without_tame_panic_crashes|
+  split; [exact missing_close_leaks|exact undrained_consumer_blocks_producer]]].
+Qed.
+Print Assumptions protocol_variants_refuted.
+
+(* ---- batch_not_corrupted: what reaches the span services is rectangular ---------------------- *)
+
+(* onSpan as regenerated from the source (one append per statement, the index expressions val[i] that can panic,
+   the flush), the slice fields of model.TempoSamples / model.TempoTag and the columns read by the two ProcessRequest
+   closures of service/impl/tempoInsertService.go: every slice field is appended exactly once per span (per key),
+   nothing else is, the flush resets the batch, and the insert services read only those fields. *)
+Theorem on_span_appends_every_column_once :
+  handler_ok gen_on_span_cols gen_spans_fields gen_attrs_fields gen_spans_consumed gen_attrs_consumed = true
+  /\ gen_on_span_unknown = 0%Z /\ hp_width_check gen_on_span_cols = true.
+Proof. vm_compute. split; [|split]; reflexivity. Qed.
+Print Assumptions on_span_appends_every_column_once.
+
+(* ... hence EVERY batch that reaches the channel -- flushes and the last one -- has all columns of the same
+   length, for every stream of spans (any id widths, any numbers of keys and values: fewer values than keys panic in
+   the middle of the appends), decoder panics and errors: a torn batch is never handed to the shared insert buffer. *)
+Theorem batches_are_rectangular : forall evs,
+  Forall (fun b => batch_rect b = true)
+         (sent_batches gen_on_span_cols gen_spans_fields gen_attrs_fields (batch0 gen_spans_fields gen_attrs_fields) evs).
+Proof.
+  intros evs. apply (sent_batches_rect gen_on_span_cols gen_spans_fields gen_attrs_fields gen_spans_consumed gen_attrs_consumed).
+  - vm_compute. reflexivity.
+  - apply batch0_inv.
+Qed.
+Print Assumptions batches_are_rectangular.
+
+(* the general form, for any handler that passes the check (and the check is not vacuous: torn_handler_rejected) *)
+Theorem checked_handlers_send_rectangular_batches : forall h sf af cs ca, handler_ok h sf af cs ca = true ->
+  forall evs, Forall (fun b => batch_rect b = true) (sent_batches h sf af (batch0 sf af) evs).
+Proof. intros h sf af cs ca H evs. apply (sent_batches_rect h sf af cs ca H). apply batch0_inv. Qed.
+Print Assumptions checked_handlers_send_rectangular_batches.
+
+Example handler_ok_hyp_met_and_needed :
+  handler_ok on_span_cols_model spans_fields_model attrs_fields_model spans_fields_model attrs_fields_model = true /\
+  handler_ok torn_handler spans_fields_model attrs_fields_model spans_fields_model attrs_fields_model = false /\
+  forallb batch_rect (sent_batches torn_handler spans_fields_model attrs_fields_model (batch0 spans_fields_model attrs_fields_model)
+        [CvSpan {| se_tid := 16; se_sid := 8; se_keys := 1; se_vals := 1; se_bytes := 100 |}]) = false.
+Proof. split; [exact on_span_cols_model_ok|exact torn_handler_rejected]. Qed.
+
+(* ---- bounded time: work measures ---------------------------------------------------------- *)
+
+(* channel operations of the span goroutine (= iterations of the handler's receive loop + 1) are at most the number
+   of decoder events + 2; the number of flushes times 1 MiB is at most the bytes accounted by the events (a body of
+   n bytes cannot cause more than n / 1 MiB + 1 responses); goroutines per request <= 2 + 5 * responses. *)
+Theorem pipeline_work_is_linear :
+  (forall evs st, (List.length (fst (run_prog tame_model spans_prog None (spans_dres st evs))) <= List.length evs + 2)%nat) /\
+  (forall evs st, let '(f, _, s) := decode_spans_with on_span st evs in
+                  (N.of_nat (List.length f) * MiB + ss_size s <= ss_size st + span_bytes evs)%N) /\
+  (forall c rs, (goroutines_of c rs <= goroutines_bound (List.length rs))%nat).
+Proof. split; [exact spans_channel_ops_linear|split; [exact decode_spans_flush_bytes|exact goroutines_linear]]. Qed.
+Print Assumptions pipeline_work_is_linear.
+
+(* ---- per-route parser selection ----------------------------------------------------------- *)
+
+(* the controller constructors (Build(append(cfg.ExtraMiddleware, ...))) regenerated from controller/*.go are the
+   modelled route table, and every path registered in router/*.go with a request pipeline has its entry *)
+Theorem routes_match_source :
+  routes_eqb gen_routes routes_model = true /\
+  forallb (fun p => is_some (find_route gen_routes (snd p))) gen_paths = true.
+Proof. vm_compute. split; reflexivity. Qed.
+Print Assumptions routes_match_source.
+
+(* PusherCtx.DoParse picks the parser by ranging over a Go MAP (unspecified order) and taking the first key that is
+   a prefix of the Content-Type: for every route and every enumeration order of its table the same parser is
+   selected -- no key of a table is a prefix of another key.  The answer to a request does not depend on it. *)
+Theorem content_type_dispatch_is_deterministic : forall r, In r gen_routes ->
+  forall order, Permutation order (rt_parsers r) -> forall ct,
+  dispatch_in_order order (rt_parsers r) ct = route_dispatch r ct.
+Proof.
+  intros r Hin order Hp ct. unfold route_dispatch. apply dispatch_order_irrelevant; [|exact Hp].
+  assert (H : forallb (fun r => table_unambiguous (rt_parsers r)) gen_routes = true) by (vm_compute; reflexivity).
+  rewrite forallb_forall in H. exact (H r Hin).
+Qed.
+Print Assumptions content_type_dispatch_is_deterministic.
+
+Example dispatch_hyps_met_and_needed :
+  (exists r, In r gen_routes /\ rt_handler r = "PushStreamV2"%string /\ Permutation (rev (rt_parsers r)) (rt_parsers r)
+             /\ route_dispatch r "application/x-protobuf; x" = Some "UnmarshalProtoV2"%string
+             /\ route_dispatch r "*/*" = Some "DecodePushRequestStringV2"%string) /\
+  table_unambiguous ambiguous_table = false /\
+  dispatch_in_order ambiguous_table ambiguous_table "application/json"
+  <> dispatch_in_order (rev ambiguous_table) ambiguous_table "application/json".
+Proof.
+  split; [|exact ambiguous_table_depends_on_order].
+  eexists. split; [do 5 right; left; reflexivity|]. split; [reflexivity|]. split; [|split; reflexivity].
+  apply Permutation_sym, Permutation_rev.
+Qed.
